@@ -1015,6 +1015,192 @@ def parse_clist(s):
 
 
 # ---------------------------------------------------------------------------------------------
+# model correspondence: histories of calls and parameter changes replayed on Effects.callI / runHistory
+
+HIST_WAVELENGTHS = (1.0, 0.75, 1.25)
+
+
+def hist_subject(name):
+    """(family, make() -> fresh element, set_param(el, k), watch(el) -> counter list, grids) for the history tie.
+    `set_param(el, k)` gives the element its parameter value number k; `watch` installs a counter of recomputations
+    of the memo cell's content (the *fill* the model predicts as a miss)."""
+    import hcipy as hp
+    g0 = hp.make_pupil_grid(8)
+    grids = [g0, hp.make_pupil_grid(8, 1.5), hp.make_pupil_grid(6)]
+
+    def watch_instance(el):
+        cnt = [0]
+        orig = el.make_instance
+
+        def counted(*a, **k):
+            cnt[0] += 1
+            return orig(*a, **k)
+        el.make_instance = counted          # instance attribute shadows the method: get_instance_data calls self.make_instance
+        return cnt
+
+    if name == 'ThinLens':
+        return ('agnosticInstance', lambda: hp.ThinLens(4.0, lambda wl: 1.5 + 0.0 * wl, 1.0),
+                lambda el, k: setattr(el, 'focal_length', 4.0 + 0.5 * k), watch_instance, grids)
+    if name == 'Apodizer':
+        def func(k):
+            return lambda grid, wavelength: hp.Field((1.0 + 0.25 * k) * np.exp(-(grid.x ** 2 + grid.y ** 2) * wavelength), grid)
+        return ('agnosticInstance', lambda: hp.Apodizer(func(0)), lambda el, k: setattr(el, 'apodization', func(k)), watch_instance, grids)
+    if name == 'PhaseApodizer':
+        def func(k):
+            return lambda grid: hp.Field((0.125 * k) * grid.x, grid)
+        return ('agnosticInstance', lambda: hp.PhaseApodizer(func(0)), lambda el, k: setattr(el, 'phase', func(k)), watch_instance, grids)
+    if name == 'DeformableMirror':
+        pool = [np.array([((7 * i + 3 * k) % 11 - 5) / 64.0 for i in range(16)]) for k in range(4)]
+
+        def make():
+            return hp.DeformableMirror(hp.make_gaussian_influence_functions(g0, 4, 0.25))
+
+        def watch(el):
+            cnt = [0]
+            mb = el.influence_functions
+            orig = mb.linear_combination
+
+            def counted(*a, **k):
+                cnt[0] += 1
+                return orig(*a, **k)
+            mb.linear_combination = counted
+            return cnt
+        return ('mirrorSurface', make, lambda el, k: setattr(el, 'actuators', pool[k % len(pool)].copy()), watch, grids[:1])
+    raise MachineryError('unknown history subject %r' % name)
+
+
+HIST_SUBJECTS = ('ThinLens', 'Apodizer', 'PhaseApodizer', 'DeformableMirror')
+
+
+def gen_history(rng, name, idx):
+    """A history: first a parameter change, then calls (grid number, wavelength number) and further parameter changes.
+    Agnostic elements: at most 10 calls (their cache holds 11 instances; eviction is C05's subject) and parameter values
+    never repeat (the setter clears the whole cache, the model keys the entries by the parameter instead).
+    The mirror: parameter values from a pool of 4, so setting the *same* actuators again occurs."""
+    agnostic = name != 'DeformableMirror'
+    ngrids = 3 if agnostic else 1
+    events = [['s', 0, 1 if agnostic else int(rng.integers(4))]]
+    nxt = 2
+    ncalls = int(rng.integers(3, 11))
+    last = None
+    for _ in range(ncalls):
+        u = rng.random()
+        if u < 0.25:
+            if agnostic:
+                events.append(['s', 0, nxt]); nxt += 1
+            else:
+                events.append(['s', 0, int(rng.integers(4))])
+        if last is not None and rng.random() < 0.35:
+            g, w = last                                # the same call again: the classical hit
+        else:
+            g, w = int(rng.integers(ngrids)), int(rng.integers(len(HIST_WAVELENGTHS)))
+        if agnostic and rng.random() < 0.2:
+            g = -1 - abs(g)                            # an equal but distinct grid object (same contents => same key)
+        events.append(['c', g, w])
+        last = (abs(g + 1) if g < 0 else g, w)
+    return {'mode': 'history', 'subject': name, 'events': events, 'data_seed': [int(idx)]}
+
+
+def run_history(case):
+    """Replay one history on the real element. Returns (bad, observed) with observed = per call event 1 if the memo
+    content was recomputed (a miss) else 0."""
+    import hcipy as hp
+    family, make, set_param, watch, grids = hist_subject(case['subject'])
+    el = make()
+    cnt = watch(el)
+    rng = np.random.default_rng(list(case['data_seed']) + [77])
+    bad = []
+    observed = []
+    current = None
+    tag = 'history %s' % case['subject']
+    for k, ev in enumerate(case['events']):
+        if ev[0] == 's':
+            current = ev[2]
+            set_param(el, current)
+            continue
+        gi = ev[1]
+        grid = grids[gi] if gi >= 0 else registry.fresh_grid(grids[-1 - gi])
+        wl = HIST_WAVELENGTHS[ev[2]]
+        E = hp.Field(registry.dyadic_complex(rng, (grid.size,)), grid)
+        keep = np.array(E, copy=True)
+        before = cnt[0]
+        with warnings.catch_warnings():
+            warnings.simplefilter('ignore')
+            out = np.array(el.forward(hp.Wavefront(E, wl)).electric_field, copy=True)
+            observed.append(1 if cnt[0] > before else 0)
+            # the clause itself (independent of the model): after this history the element answers like a freshly
+            # constructed one with the current parameters, and the input is intact
+            fresh = make()
+            set_param(fresh, current)
+            ref = np.asarray(fresh.forward(hp.Wavefront(hp.Field(keep.copy(), grid), wl)).electric_field)
+        if not np.array_equal(np.asarray(E), keep):
+            bad.append(('input-modified:field-values ' + tag, 'input-modified: call number %d of the history changed its input' % k))
+        if out.shape != ref.shape or maxabs(out - ref) > TOL_REP * max(1.0, maxabs(ref)):
+            bad.append(('history-parameters ' + tag,
+                        'history: after the events %r the element returns something else than a fresh element with the current '
+                        'parameter (max diff %.3g) [%s]' % (case['events'][:k + 1], maxabs(out - ref) if out.shape == ref.shape else float('inf'), case['subject'])))
+    return bad, observed, family
+
+
+def history_line(family, events):
+    toks = []
+    for k, ev in enumerate(events):
+        if ev[0] == 's':
+            toks.append('s:%d:%d' % (ev[1], ev[2]))
+        else:
+            g = ev[1] if ev[1] >= 0 else -1 - ev[1]
+            toks.append('c:%d:%d:%d' % (100 + k, ev[2], g))     # field values: a different number every call (never part of a key)
+    return 'C06 history %s %s' % (family, ' '.join(toks))
+
+
+def history_tie(ctx):
+    n = ctx.scale(10, 60)
+    rng = np.random.default_rng([ctx.seed, 6, 7])
+    cases = []
+    # directed corpus: same call twice; wavelength change; parameter change between identical calls; back to an earlier key
+    cases.append({'mode': 'history', 'subject': 'ThinLens', 'data_seed': [0],
+                  'events': [['s', 0, 1], ['c', 0, 0], ['c', 0, 0], ['c', 0, 1], ['c', 0, 0], ['s', 0, 2], ['c', 0, 0], ['c', -1, 0], ['c', 1, 0], ['c', 0, 0]]})
+    cases.append({'mode': 'history', 'subject': 'DeformableMirror', 'data_seed': [1],
+                  'events': [['s', 0, 0], ['c', 0, 0], ['c', 0, 1], ['s', 0, 1], ['c', 0, 0], ['s', 0, 0], ['c', 0, 0], ['s', 0, 0], ['c', 0, 2]]})
+    idx = 2
+    for name in HIST_SUBJECTS:
+        for _ in range(n):
+            cases.append(gen_history(rng, name, idx)); idx += 1
+    lines, kept = [], []
+    for case in cases:
+        bad, observed, family = run_history(case)
+        for key, what in bad:
+            ctx.violation(key, what, case)
+        ctx.count('history-subject:' + case['subject'])
+        ctx.count('history-calls:%d' % len(observed))
+        ctx.count('history-param-changes:%d' % (sum(1 for e in case['events'] if e[0] == 's') - 1))
+        ctx.case(None, nontrivial_key=('history', case['subject'], repr(case['events'])) if (0 in observed and 1 in observed) else None)
+        lines.append(history_line(family, case['events']))
+        kept.append((case, observed, family))
+    answers = ctx.model(lines)
+    for (case, observed, family), ans, line in zip(kept, answers, lines):
+        toks = ans.split(' ')
+        if toks[:2] != ['ok', 'safe=1'] or len(toks) != 3 + len(case['events']) or toks[2] != 'cells=0':
+            raise MachineryError('unexpected answer to %r: %r' % (line, ans))
+        predicted, fresh_ok = [], True
+        for ev, t in zip(case['events'], toks[3:]):
+            if ev[0] == 's':
+                if t != 's':
+                    raise MachineryError('history token mismatch %r' % ans)
+                continue
+            if len(t) != 4 or t[0] != 'h' or t[2] != 'f':
+                raise MachineryError('history token %r' % t)
+            predicted.append(0 if t[1] == '1' else 1)          # hit => no recomputation
+            fresh_ok = fresh_ok and t[3] == '1'
+        ctx.traces_validated += len(observed)
+        for o in observed:
+            ctx.count('history-observed:' + ('miss' if o else 'hit'))
+        if predicted != observed or not fresh_ok:
+            ctx.disagree('C06 history', {'subject': case['subject'], 'family': family, 'events': case['events'],
+                                         'model_miss': predicted, 'impl_miss': observed, 'model_fresh_equal': fresh_ok})
+
+
+# ---------------------------------------------------------------------------------------------
 
 def plan(ctx):
     """The list of cases of this run: for each registry (one in the quick tier, several — different grid sizes and
@@ -1102,6 +1288,7 @@ def run(ctx):
                         'float arithmetic on the generated dyadic fields (a*E1+E2) is exact',
                         'sub-propagators probed as dense matrices are linear (checked by their own registry entries)']
     load_internal_declarations(ctx)
+    history_tie(ctx)
     internal_seen = {}
     registries, cases = plan(ctx)
     entries = registries[0]
@@ -1258,6 +1445,11 @@ def warm_up(e, el, case):
 
 
 def replay(ctx, case):
+    if case.get('mode') == 'history':
+        bad, _, _ = run_history(case)
+        for key, what in bad:
+            print('  fails:', key, '-', what)
+        return not bad
     e = find_entry(case)
     el = e.factory()
     warm_up(e, el, case)
